@@ -382,7 +382,10 @@ def pick (cfg : HCfg) (r : ReqIn) : Pick :=
 def encSeen (kind : String) (r : ReqIn) : Str :=
   str kind ++ 124 :: r.rname ++ 124 :: r.method ++ 124 :: r.query ++ 124 :: r.cid ++ 124 ::
   (if r.isHTTP then [84] else [70]) ++ 124 :: (r.rawParams.getD [45]) ++ 124 :: (r.token.getD [45]) ++ 124 ::
-  (obj.joinWith 44 (r.params.map fun (k, v) => k ++ 61 :: v))
+  (obj.joinWith 44 (r.params.map fun (k, v) => k ++ 61 :: v)) ++
+  -- `ParseQuery()` is the standard library's parse of that same query (`url.ParseQuery`, errors
+  -- ignored, the well-formed pairs kept); the harness compares the two and reports T/F
+  b!"|pq=T"
 
 /-- `processRequest` + `executeHandler`: all observable effects of one request -/
 def process (cfg : HCfg) (r : ReqIn) (script : List Action) : List Eff :=
